@@ -253,5 +253,18 @@ impl WrapConfig {
     //@|         self.max_lines > 1 ==> r >= max_line_length,  // @C07:wrapping.never.lowers.the.maximal.line.length
 }
 
+// ---- wrapping.rs adapt_wrap_max_lines_argument: what --wrap-max-lines means
+/// what `str::parse::<usize>` makes of a string (None: not a number); uninterpreted
+pub uninterp spec fn parsed_usize(s: Seq<char>) -> Option<usize>;
+/// (R3) `arg.parse::<usize>().unwrap_or_else(|err| fatal(format!(..)))`: the number, or delta ends with an error message
+#[verifier::external_body]
+pub fn verif_parse_usize_or_die(arg: &String) -> (r: usize) ensures parsed_usize(arg@) == Some(r) { unimplemented!() }
+/// the words for "no limit"
+pub open spec fn unlimited_word(s: Seq<char>) -> bool { s == "∞"@ || s == "unlimited"@ || is_prefix("inf"@, s) }
+//@ fn src/wrapping.rs adapt_wrap_max_lines_argument
+//@| ensures unlimited_word(arg@) ==> r == 0,  // @C07:unlimited.wrapping.is.the.limit.0.which.never.cuts
+//@|         !unlimited_word(arg@) ==> (parsed_usize(arg@) matches Some(n) && r == (if n < usize::MAX { (n + 1) as usize } else { usize::MAX })),  // @C07:wrap-max-lines.n.allows.n.additional.rows.the.line.itself.is.the.first
+//@rewrite <<<arg.parse::<usize>() .unwrap_or_else(|err| fatal(format!("Invalid wrap-max-lines argument: {err}")))>>> => <<<verif_parse_usize_or_die(&arg)>>>
+
 } // verus!
 fn main() {}
